@@ -106,6 +106,7 @@ def worker(args):
                     rec["smt2"] = ob.smt2
                 out["obligations"].append(rec)
         out["assumptions"] = sorted(asm)
+        out["callees"] = sorted(cs.used)
         out["stats"] = dict(ex.stats)
     except Exception as e:      # noqa
         out["error"] = f"{type(e).__name__}: {e}\n{traceback.format_exc()[-1500:]}"
@@ -297,6 +298,24 @@ def main(argv=None):
                 violations.append((r, ob))
             else:
                 undecided.append(f"{ob['name']}: solver gave no answer within {timeout_ms} ms")
+    # callee contracts used at call sites: verified in this run, verified by the check of another property, or assumed
+    mine = {(t[0] if isinstance(t, (tuple, list)) else t) for t in targets}
+    elsewhere = {}
+    for pid_, d_ in load_props()[0].items():
+        for t in d_["targets"]:
+            elsewhere.setdefault(t[0] if isinstance(t, (tuple, list)) else t, []).append(pid_)
+    callees = {}
+    for r in results:
+        for cname in r.get("callees", []):
+            if cname in mine:
+                callees[cname] = "verified in this run"
+            elif cname in elsewhere:
+                callees[cname] = "verified by the check of " + ", ".join(sorted(set(elsewhere[cname])))
+            else:
+                variants = sorted(t for t in elsewhere if t.split("#")[0] == cname.split("#")[0])
+                callees[cname] = "ASSUMED at call sites: this contract is never verified against the body" + \
+                    (f" (other contracts of the same function are: {', '.join(variants)})" if variants else "")
+                asm.add(f"assumed contract of a callee: {cname} (used at call sites, not verified against its body)")
     for name in disagreements:
         engine_err.append(f"solver disagreement on {name}: z3 unsat, cvc5 sat")
     engine_err.extend(engine_err_pre)
@@ -357,6 +376,7 @@ def main(argv=None):
             "undecided": undecided, "engine_errors": engine_err,
             "bounded_standins": P.get("bounded", []) + ([f"CPython cross-check of the interpreter on concrete inputs (bounded, engine self-test): {xcheck_txt}"] if xcheck_txt else []),
             "canaries": canary,
+            "callee_contracts": dict(sorted(callees.items())),
             "known_findings_printed": sorted(kf_hit),
             "evaluations": n_obl, "distinct_nontrivial": len({ob["name"] for r in results for ob in r["obligations"] if not ob["info"].get("trivial")}),
             "rule": "one evaluation = one verification condition (path x clause); distinct = distinct obligation names that are not trivially true",
